@@ -334,8 +334,15 @@ func runC09(c *Ctx, idx int, o *Obs) {
 
 	// the command
 	if idx%8 == 2 {
-		f := tmpFile(c, "trees.nw", strings.Join(texts, "\n")+"\n")
-		res := runCLI(c, "", "compute", "consensus", "-i", f, "-f", strconv.FormatFloat(cutoff, 'g', -1, 64))
+		plain := true
+		for _, s := range texts {
+			plain = plain && plainNewick(s)
+		}
+		// Nexus wants one TAXA block (same taxa everywhere: true here); rooted and unrooted trees may be mixed
+		inArgs, inStdin, inMode := presentTrees(c, r, "trees", texts, plain)
+		o.Ev("cli_input:"+inMode, 1)
+		res, outMode := runCLIOut(c, r, inStdin, append(append([]string{"compute", "consensus"}, inArgs...), "-f", strconv.FormatFloat(cutoff, 'g', -1, 64))...)
+		o.Ev("cli_output:"+outMode, 1)
 		o.Ev("cli", 1)
 		if o.Check(res.Exit == 0 && !res.Panic, "cli_consensus_failed", res.brief(), inp) {
 			ct, err := parseNewick(strings.TrimSpace(res.Stdout))
